@@ -4,7 +4,7 @@ use std::{
 };
 
 use approx::UlpsEq;
-use itertools::izip;
+use itertools::{iproduct, izip};
 use num_traits::Float;
 
 use crate::{
@@ -82,11 +82,14 @@ where
         let p0: MArrD1<_, _> = w0.projection();
         let p1 = w1.projection();
         let p_iter = product2_iter(&p0, &p1);
-        let b_iter = product2_iter(&w0.simplex.belief, &w1.simplex.belief);
         let a = MArrD2::product2(&w0.base_rate, &w1.base_rate);
-        let u = izip!(p_iter.clone(), b_iter, &a)
-            .filter(|(_, _, &a)| a > V::zero())
-            .map(|(p, b, &a)| (p - b) / a)
+        // (P0*P1 - b0*b1) / (a0*a1) with P = b + a*u, expanded so that no nearly equal quantities are subtracted
+        let r0 = izip!(&w0.simplex.belief, w0.base_rate).map(|(&b, &a)| b / a);
+        let r1 = izip!(&w1.simplex.belief, w1.base_rate).map(|(&b, &a)| b / a);
+        let (u0, u1) = (w0.u(), w1.u());
+        let u = izip!(iproduct!(r0, r1), &a)
+            .filter(|(_, &a)| a > V::zero())
+            .map(|((r0, r1), _)| u0 * (r1 + u1) + r0 * u1)
             .reduce(V::min)
             .unwrap();
         let b = MArrD2::<D0, D1, V>::from_iter(p_iter.zip(&a).map(|(p, &a)| p - a * u));
@@ -108,11 +111,14 @@ where
         let p1 = w1.projection();
         let p2 = w2.projection();
         let p_iter = product3_iter(&p0, &p1, &p2);
-        let b_iter = product3_iter(&w0.simplex.belief, &w1.simplex.belief, &w2.simplex.belief);
         let a = MArrD3::product3(&w0.base_rate, &w1.base_rate, &w2.base_rate);
-        let u = izip!(p_iter.clone(), b_iter, &a)
-            .filter(|(_, _, &a)| a > V::zero())
-            .map(|(p, b, &a)| (p - b) / a)
+        let r0 = izip!(&w0.simplex.belief, w0.base_rate).map(|(&b, &a)| b / a);
+        let r1 = izip!(&w1.simplex.belief, w1.base_rate).map(|(&b, &a)| b / a);
+        let r2 = izip!(&w2.simplex.belief, w2.base_rate).map(|(&b, &a)| b / a);
+        let (u0, u1, u2) = (w0.u(), w1.u(), w2.u());
+        let u = izip!(iproduct!(r0, r1, r2), &a)
+            .filter(|(_, &a)| a > V::zero())
+            .map(|((r0, r1, r2), _)| u0 * (r1 + u1) * (r2 + u2) + r0 * (u1 * (r2 + u2) + r1 * u2))
             .reduce(V::min)
             .unwrap();
         let b = MArrD3::<D0, D1, D2, _>::from_iter(p_iter.zip(&a).map(|(p, &a)| p - a * u));
